@@ -39,14 +39,17 @@ pub open spec fn view_ok(v: WorksheetView) -> bool {
     on_grid(v.row as int, v.column as int) && on_grid(v.range@[0] as int, v.range@[1] as int) && on_grid(v.range@[2] as int, v.range@[3] as int)
         && between(v.row as int, v.range@[0] as int, v.range@[2] as int) && between(v.column as int, v.range@[1] as int, v.range@[3] as int)
 }
-/// C28 for the workbook: the selected sheet (the sheet of THE view, `view_id`, which every constructor sets to 0 and nothing
-/// reassigns — scan view-id-writers) exists, and every worksheet view is view_ok
-pub open spec fn sel_inv(m: &Model) -> bool {
+/// every worksheet view is view_ok; THE view is `view_id`, which every constructor sets to 0 and nothing reassigns (scan view-id-writers)
+pub open spec fn views_inv(m: &Model) -> bool {
     &&& m.view_id == 0
     &&& m.workbook.worksheets@.len() >= 1
-    &&& m.workbook.views@.contains_key(m.view_id) ==> m.workbook.views@[m.view_id].sheet < m.workbook.worksheets@.len()
     &&& forall|i: int, k: u32| 0 <= i < m.workbook.worksheets@.len() && m.workbook.worksheets@[i].views@.contains_key(k)
             ==> view_ok(#[trigger] m.workbook.worksheets@[i].views@[k])
+}
+/// C28 for the workbook: the selected sheet exists, and every worksheet view is view_ok
+pub open spec fn sel_inv(m: &Model) -> bool {
+    &&& views_inv(m)
+    &&& m.workbook.views@.contains_key(m.view_id) ==> m.workbook.views@[m.view_id].sheet < m.workbook.worksheets@.len()
 }
 /// sheet indices are u32 in every API; the engine never holds 2^31 sheets (assumption, not provable: Model::new_sheet has no such check)
 pub open spec fn few_sheets(m: &Model) -> bool { m.workbook.worksheets@.len() < 0x8000_0000 }
@@ -107,6 +110,14 @@ impl<'a> Model<'a> {
             final(self).workbook.worksheets@.drop_last() =~= old(self).workbook.worksheets@,
             forall|k: u32| final(self).workbook.worksheets@.last().views@.contains_key(k) ==> view_ok(#[trigger] final(self).workbook.worksheets@.last().views@[k]),
             final(self).workbook.views == old(self).workbook.views && final(self).view_id == old(self).view_id
+//@end
+//@stub base/src/new_empty.rs Model::insert_sheet
+    ensures r.is_err() ==> *final(self) == *old(self),
+            r.is_ok() ==> (sheet_index as int) <= old(self).workbook.worksheets@.len()
+                && final(self).workbook.worksheets@.len() == old(self).workbook.worksheets@.len() + 1
+                && final(self).workbook.worksheets@.remove(sheet_index as int) =~= old(self).workbook.worksheets@
+                && (forall|k: u32| final(self).workbook.worksheets@[sheet_index as int].views@.contains_key(k) ==> view_ok(#[trigger] final(self).workbook.worksheets@[sheet_index as int].views@[k]))
+                && final(self).workbook.views == old(self).workbook.views && final(self).view_id == old(self).view_id
 //@end
 //@stub base/src/new_empty.rs Model::duplicate_sheet
     ensures r.is_err() ==> *final(self) == *old(self),
@@ -213,10 +224,11 @@ impl<'a> UserModel<'a> {
 
 //@fn base/src/user_model/ui.rs UserModel::set_selected_sheet
 //@spec
-    requires sel_inv(&old(self).model)
+    requires views_inv(&old(self).model)     // (not sel_inv: this is the call that RE-establishes the selected sheet after a sheet was removed)
     ensures
         ui_frame(old(self), final(self)),
-        sel_inv(&final(self).model),
+        r.is_ok() ==> sel_inv(&final(self).model),
+        sel_inv(&old(self).model) ==> sel_inv(&final(self).model),
         r.is_err() ==> same_model(&final(self).model, &old(self).model),
         r.is_ok() == ((sheet as int) < old(self).model.workbook.worksheets@.len()),
         final(self).model.workbook.worksheets == old(self).model.workbook.worksheets,
@@ -460,13 +472,13 @@ pub fn on_navigate_write(&mut self, sheet: u32, new_row: i32, new_column: i32, t
         r.is_err() ==> same_state_v(old(self), final(self)),
         r.is_ok() ==> one_entry(old(self), final(self)),
 //@rewrite `) -> Result<(), String> {` => `) -> (r: Result<(), String>) {`
-//@rewrite `for column in column_start..=column_end {` => `let mut __i = column_start; while __i <= column_end { let column = __i; __i += 1;`
+//@forwhile 1
 //@loop 1
-            invariant column_start <= __i, column_start <= column_end ==> __i <= column_end + 1, column_start > column_end ==> __i == column_start,
+            invariant column_start <= __column, column_start <= column_end ==> __column <= column_end + 1, column_start > column_end ==> __column == column_start,
                 hidden_frame(&old(self).model, &self.model), self.history == old(self).history, self.send_queue == old(self).send_queue,
                 self.pause_evaluation == old(self).pause_evaluation,
-                __i == column_start ==> same_state_v(old(self), self),
-            decreases column_end + 1 - __i
+                __column == column_start ==> same_state_v(old(self), self),
+            decreases column_end + 1 - __column
 //@loop 2
                     invariant column_start <= column_end ==> column_end < column <= 16385,
                         column_start > column_end ==> same_state_v(old(self), self),
@@ -489,13 +501,13 @@ pub fn on_navigate_write(&mut self, sheet: u32, new_row: i32, new_column: i32, t
         r.is_err() ==> same_state_v(old(self), final(self)),
         r.is_ok() ==> one_entry(old(self), final(self)),
 //@rewrite `) -> Result<(), String> {` => `) -> (r: Result<(), String>) {`
-//@rewrite `for row in row_start..=row_end {` => `let mut __i = row_start; while __i <= row_end { let row = __i; __i += 1;`
+//@forwhile 1
 //@loop 1
-            invariant row_start <= __i, row_start <= row_end ==> __i <= row_end + 1, row_start > row_end ==> __i == row_start,
+            invariant row_start <= __row, row_start <= row_end ==> __row <= row_end + 1, row_start > row_end ==> __row == row_start,
                 hidden_frame(&old(self).model, &self.model), self.history == old(self).history, self.send_queue == old(self).send_queue,
                 self.pause_evaluation == old(self).pause_evaluation,
-                __i == row_start ==> same_state_v(old(self), self),
-            decreases row_end + 1 - __i
+                __row == row_start ==> same_state_v(old(self), self),
+            decreases row_end + 1 - __row
 //@loop 2
                     invariant row_start <= row_end ==> row_end < row <= 1048577,
                         row_start > row_end ==> same_state_v(old(self), self),
@@ -525,7 +537,7 @@ pub fn on_paste_styles_area(range: [i32; 4], styles_height: i32, styles_width: i
     Ok((row_start, column_start, last_row, last_column))
 }
 /// on_paste_styles, last step: that area becomes the selected range; the selected cell, which was inside the old range, is inside it
-pub fn on_paste_styles_select(&mut self, sheet: u32, range: [i32; 4], row_start: i32, column_start: i32, last_row: i32, last_column: i32)
+pub fn on_paste_styles_select(&mut self, sheet: u32, range: [i32; 4], row_start: i32, column_start: i32, last_row: i32, last_column: i32, styles_height: i32, styles_width: i32)
     requires sel_inv(&old(self).model),
         (sheet as int) < old(self).model.workbook.worksheets@.len() && old(self).model.workbook.worksheets@[sheet as int].views@.contains_key(old(self).model.view_id)
             ==> old(self).model.workbook.worksheets@[sheet as int].views@[old(self).model.view_id].range@ =~= range@,
@@ -533,8 +545,93 @@ pub fn on_paste_styles_select(&mut self, sheet: u32, range: [i32; 4], row_start:
         row_start <= range@[0] <= last_row && row_start <= range@[2] <= last_row && column_start <= range@[1] <= last_column && column_start <= range@[3] <= last_column,
     ensures sel_inv(&final(self).model)
 {
-//@fragment base/src/user_model/common.rs UserModel::on_paste_styles `if let Ok(worksheet) = self.model.workbook.worksheet_mut(sheet) {` .. `view.range = [row_start, column_start, last_row, last_column];`
+//@fragment base/src/user_model/common.rs UserModel::on_paste_styles `if let Ok(worksheet) = self.model.workbook.worksheet_mut(sheet) {` .. `view.range = `
 //@end
+}
+
+// ---- undo / redo of the sheet-structure diffs: the selection is an existing sheet afterwards (C28: "undoing or redoing such changes
+// keep the selection on an existing sheet") ----
+pub proof fn lemma_inserted_views_ok(s0: Seq<Worksheet>, s1: Seq<Worksheet>, at: int)
+    requires 0 <= at <= s0.len(), s1.len() == s0.len() + 1, s1.remove(at) =~= s0,
+        forall|i: int, k: u32| 0 <= i < s0.len() && s0[i].views@.contains_key(k) ==> view_ok(#[trigger] s0[i].views@[k]),
+        forall|k: u32| s1[at].views@.contains_key(k) ==> view_ok(#[trigger] s1[at].views@[k]),
+    ensures forall|i: int, k: u32| 0 <= i < s1.len() && s1[i].views@.contains_key(k) ==> view_ok(#[trigger] s1[i].views@[k])
+{
+    assert forall|i: int, k: u32| 0 <= i < s1.len() && s1[i].views@.contains_key(k) implies view_ok(#[trigger] s1[i].views@[k]) by {
+        if i < at { assert(s1[i] == s1.remove(at)[i]); } else if i > at { assert(s1[i] == s1.remove(at)[i - 1]); }
+    }
+}
+pub fn redo_arm_delete_sheet(&mut self, sheet: &u32) -> (r: Result<(), String>)
+    requires sel_inv(&old(self).model), few_sheets(&old(self).model)
+    ensures r.is_ok() ==> sel_inv(&final(self).model)
+{
+//@arm base/src/user_model/undo_redo.rs UserModel::apply_diff_list `Diff::DeleteSheet {`
+//@end
+    ;
+    Ok(())
+}
+pub fn redo_arm_new_sheet(&mut self, index: &u32, name: &String) -> (r: Result<(), String>)
+    requires sel_inv(&old(self).model), few_sheets(&old(self).model)
+    ensures r.is_ok() ==> sel_inv(&final(self).model)
+{
+//@arm base/src/user_model/undo_redo.rs UserModel::apply_diff_list `Diff::NewSheet {`
+//@after `self.model.insert_sheet(name, *index, None)?;`
+                    proof { Self::lemma_inserted_views_ok(old(self).model.workbook.worksheets@, self.model.workbook.worksheets@, *index as int); }
+//@end
+    ;
+    Ok(())
+}
+pub fn redo_arm_duplicate_sheet(&mut self, source_index: &u32, new_index: &u32) -> (r: Result<(), String>)
+    requires sel_inv(&old(self).model), few_sheets(&old(self).model)
+    ensures r.is_ok() ==> sel_inv(&final(self).model)
+{
+    let mut needs_evaluation = false;
+//@arm base/src/user_model/undo_redo.rs UserModel::apply_diff_list `Diff::DuplicateSheet {`
+//@after `self.model.duplicate_sheet(*source_index)?;`
+                    proof { Self::lemma_inserted_views_ok(old(self).model.workbook.worksheets@, self.model.workbook.worksheets@, *source_index as int + 1); }
+//@end
+    ;
+    Ok(())
+}
+pub fn redo_arm_move_sheet(&mut self, sheet_index: &u32, new_index: &u32) -> (r: Result<(), String>)
+    requires sel_inv(&old(self).model), few_sheets(&old(self).model)
+    ensures r.is_ok() ==> sel_inv(&final(self).model)
+{
+//@arm base/src/user_model/undo_redo.rs UserModel::apply_diff_list `Diff::MoveSheet {`
+//@end
+    ;
+    Ok(())
+}
+pub fn undo_arm_new_sheet(&mut self, index: &u32) -> (r: Result<(), String>)
+    requires sel_inv(&old(self).model), few_sheets(&old(self).model),
+        *index >= 1,      // the recorded index is where Model::new_sheet appended the sheet, in a workbook that already had one
+    ensures r.is_ok() ==> sel_inv(&final(self).model)
+{
+//@arm base/src/user_model/undo_redo.rs UserModel::apply_undo_diff_list `Diff::NewSheet {`
+//@end
+    ;
+    Ok(())
+}
+pub fn undo_arm_duplicate_sheet(&mut self, source_index: &u32, new_index: &u32) -> (r: Result<(), String>)
+    requires sel_inv(&old(self).model), few_sheets(&old(self).model),
+        *source_index < *new_index,     // the copy was placed right after its source
+    ensures r.is_ok() ==> sel_inv(&final(self).model)
+{
+    let mut needs_evaluation = false;
+//@arm base/src/user_model/undo_redo.rs UserModel::apply_undo_diff_list `Diff::DuplicateSheet {`
+//@dropstmt `.retain(`
+//@end
+    ;
+    Ok(())
+}
+pub fn undo_arm_move_sheet(&mut self, sheet_index: &u32, new_index: &u32) -> (r: Result<(), String>)
+    requires sel_inv(&old(self).model), few_sheets(&old(self).model)
+    ensures r.is_ok() ==> sel_inv(&final(self).model)
+{
+//@arm base/src/user_model/undo_redo.rs UserModel::apply_undo_diff_list `Diff::MoveSheet {`
+//@end
+    ;
+    Ok(())
 }
 }
 
